@@ -182,7 +182,7 @@ class CRTWorld:
         install()
         self.scenario = sc
         self.sim = kernel.Sim(chooser, max_steps=sc.get('max_steps', 60000))
-        self.faults = FaultPlan([], self)
+        self.faults = FaultPlan(sc.get('faults') or [], self)
         self.fs = SimFS(self)
         self.osutil = None
         self.violations = []
@@ -564,21 +564,34 @@ def evaluate(w):
             w.violation('C20', 'callbacks-never-complete',
                         't%d: done callbacks were never reported complete' % t['idx'])
         if t['type'] == 'download' and t['spec']['dst'] == 'path' and \
-                (t.get('at_complete') or (0, []))[1]:
+                (t.get('at_complete') or (0, []))[1] and not any(
+                    fr['spec']['site'] == 'fs' and fr['spec'].get('op') == 'remove'
+                    and fr['spec'].get('dest') == t['path'] for fr in w.faults.fired):
             w.violation('C20', 'reported-finished-before-publish',
                         't%d: callbacks were reported complete while the temporary file(s) %r '
                         'were neither renamed nor removed yet' % (t['idx'], t['at_complete'][1]))
         if t['type'] == 'download' and t['spec']['dst'] == 'path':
             p = t['path']
             temps = w.fs.temps_of(p)
-            if temps:
+            fs_faults = [fr['spec'].get('op') for fr in w.faults.fired
+                         if fr['spec']['site'] == 'fs' and fr['spec'].get('dest') == p]
+            if temps and 'remove' not in fs_faults:
                 w.violation('C20', 'temp-left',
                             't%d: temporary file(s) %r remain' % (t['idx'], temps))
             cur = w.fs.files.get(p)
             cur = bytes(cur) if cur is not None else None
             err = t.get('crt_error')
             made = t['request'] is not None
-            if made and err is None:
+            if made and err is None and 'rename' in fs_faults:
+                # the final rename failed: nothing is published, the temporary
+                # file is removed and the transfer reports the failure
+                if cur != t['prev']:
+                    w.violation('C20', 'failed-download-touched-dest',
+                                't%d: the rename failed but destination changed to %r'
+                                % (t['idx'], _short(cur)))
+                # (result() may have returned before on_done ran at all - the
+                # CRT resolves its future first - so nothing is claimed about it)
+            elif made and err is None:
                 if cur != t['expect']:
                     w.violation('C20', 'download-not-published',
                                 't%d: CRT request succeeded but destination holds %r'
@@ -616,6 +629,14 @@ def generate(prop, seed):
         if ty == 'upload':
             spec['src'] = rng.choice(['path', 'stream'])
         transfers.append(spec)
+    faults = []
+    for i, spec in enumerate(transfers):
+        if spec['type'] == 'download' and spec.get('dst') == 'path' and rng.random() < 0.2:
+            # the file system refuses the final rename, or the removal of the
+            # temporary file (with an OSError that is not "no such file")
+            faults.append({'site': 'fs', 'op': rng.choice(['rename', 'remove', 'remove']),
+                           'dest': '/d/crt%d' % i,
+                           'exc': rng.choice(['oserror', 'eio', 'permission'])})
     est = 120 + 80 * n
     script = [['submit', i] for i in range(n)]
     r = rng.random()
@@ -632,6 +653,7 @@ def generate(prop, seed):
     else:
         script += [['wait_step', rng.randint(0, est)], ['with_raise']]
     return {'permits': permits, 'loops': rng.choice([1, 2, 3]), 'transfers': transfers,
+            'faults': faults,
             'driver': script, 'translate': rng.random() < 0.5,
             'strategy': gen_strategy(rng, est), 'sched_seed': rng.randrange(1 << 62),
             'fs_seed': rng.randrange(1 << 30), 'max_steps': 80 * est + 20000,
